@@ -510,12 +510,19 @@ def z3_cli_check(solver, timeout_ms):
         with os.fdopen(fd, 'w') as fp:
             fp.write(text)
         sec = max(1, int(timeout_ms / 1000))
-        try:
-            out = subprocess.run([exe, '-smt2', '-T:%d' % sec, path], capture_output=True, text=True, timeout=sec + 10)
-        except subprocess.TimeoutExpired:
-            return 'unknown'
-        first = (out.stdout.strip().split('\n') or [''])[0]
-        return first if first in ('sat', 'unsat') else 'unknown'
+        t0 = time.time()
+        for extra in ([], ['smt.random_seed=7']):
+            try:
+                out = subprocess.run([exe, '-smt2', '-T:%d' % sec] + extra + [path], capture_output=True, text=True,
+                                     timeout=sec + 10)
+            except subprocess.TimeoutExpired:
+                return 'unknown'
+            first = (out.stdout.strip().split('\n') or [''])[0]
+            if first in ('sat', 'unsat'):
+                return first
+            if time.time() - t0 > sec / 2.0:
+                break       # it used its budget: a second seed would double the cost
+        return 'unknown'
     finally:
         os.unlink(path)
 
